@@ -365,24 +365,29 @@ VarOfSolv(x) == IF x = 0 THEN 0
                 ELSE IF \E i \in DOMAIN wb.vsolv : wb.vsolv[i][2] = x
                      THEN wb.vsolv[CHOOSE i \in DOMAIN wb.vsolv : wb.vsolv[i][2] = x][1] ELSE -1
 ClauseRecs == {Rec[wb.cls[i]] : i \in {j \in DOMAIN wb.cls : Rec[wb.cls[j]].ev = "clause"}}
+\* (A clause about a solvable the solver cannot select - one that is no requirement's
+\* candidate and was never installed directly - is not demanded: an encoder may leave it
+\* out until that solvable becomes selectable.)
 MissingClauses(S) ==
   LET CR == ClauseRecs
       X == S \cup {0}
+      sel == {SolvOfVar(v) : v \in UNION {Range(Concat(c.cands)) : c \in {d \in CR : d.kind = "requires"}}}
+             \cup {SolvOfVar(v) : v \in wb.inst \ {0}}
       reqMissingAll == UNION {{<<"requires", x, ReqsOf(u, p, x)[i]>> :
                               i \in {j \in DOMAIN ReqsOf(u, p, x) :
                                         ~\E c \in CR : c.kind = "requires" /\ c.a = VarOfSolv(x) /\ c.vs = ReqsOf(u, p, x)[j]}}
                            : x \in X}
       conMissing == UNION {UNION {{<<"constrains", x, y>> :
-                              y \in {z \in Range(NonMatch(u, ConsOf(u, p, x)[i])) :
+                              y \in {z \in Range(NonMatch(u, ConsOf(u, p, x)[i])) \cap sel :
                                         ~\E c \in CR : c.kind = "constrains" /\ c.a = VarOfSolv(x) /\ SolvOfVar(c.b) = z}}
                                   : i \in DOMAIN ConsOf(u, p, x)} : x \in X}
       names == UNION {Mentioned(u, p, x) : x \in X}
       lockMissing == UNION {{<<"lock", n, y>> :
-                              y \in {z \in Range(Cands(u, n)) \ {u.pkg[n].locked} :
+                              y \in {z \in (Range(Cands(u, n)) \ {u.pkg[n].locked}) \cap sel :
                                         u.pkg[n].locked # 0 /\ ~\E c \in CR : c.kind = "lock" /\ SolvOfVar(c.b) = z}}
                             : n \in {m \in names : u.pkg[m].exists}}
       exclMissing == UNION {{<<"excluded", n, y>> :
-                              y \in {z \in Range(u.pkg[n].excluded) :
+                              y \in {z \in Range(u.pkg[n].excluded) \cap sel :
                                         ~\E c \in CR : c.kind = "excluded" /\ SolvOfVar(c.a) = z}}
                             : n \in {m \in names : u.pkg[m].exists}}
   IN reqMissingAll \cup conMissing \cup lockMissing \cup exclMissing
